@@ -169,9 +169,16 @@ def build(spec):
     # criterion cells live in column H
     hrow = [0]
 
+    overrides = []
+
     def crit_cell(v):
         hrow[0] += 1
-        cells[f'H{hrow[0]}'] = v
+        if spec.get('crit_override') and not isinstance(v, bool):
+            # the workbook holds another value there: the criterion in force is the one set through the executor
+            cells[f'H{hrow[0]}'] = (v + 7) if isinstance(v, (int, float)) else 'zz-decoy'
+            overrides.append(('S', 'H', str(hrow[0]), v))
+        else:
+            cells[f'H{hrow[0]}'] = v
         return f'H{hrow[0]}'
     qs = []
     height = len(cols[0])
@@ -280,7 +287,10 @@ def build(spec):
                         meta={'selected': sel, 'fi': fi, 'triggers': trig}))
         except Skip as e:
             continue
-    return {'sheets': [{'title': 'S', 'cells': cells}], 'queries': qs, 'first_col': 12, 'ncols': 64}
+    for q_ in qs:
+        if overrides:
+            q_.tags.append('criterion-cell-overridden')
+    return {'sheets': [{'title': 'S', 'cells': cells}], 'queries': qs, 'first_col': 12, 'ncols': 64, 'overrides': overrides or None}
 
 
 def run_case(spec):
@@ -293,7 +303,7 @@ def strategy():
     from hypothesis import strategies as st
     num = st.one_of(st.integers(-5, 12), st.integers(0, 6), st.sampled_from([2.5, 0.5, 7.25, -1.5]))
     word = st.sampled_from(WORDS)
-    patterns = st.sampled_from(['a*', '*e', 'p*', '?pple', 'a?c', 'a~?c', 'a~*c', '*a*', 'k???', '????', 'a*c', '*', 'p?ar', 'A*', '*PLE', 'x', 'gr*e'])
+    patterns = st.sampled_from(['a*', '*e', 'p*', '?pple', 'a?c', 'a~?c', 'a~*c', '*a*', 'k???', '????', 'a*c', '*', 'p?ar', 'A*', '*PLE', 'x', 'gr*e', 'a?*', '*?', '??*', 'p?*r', 'a~?*', '?*c', 'x?*'])
 
     @st.composite
     def spec(draw):
@@ -357,7 +367,7 @@ def strategy():
                     pairs = [{'col': ci, 'crit': crit_for(ci)}]
                     wide = draw(st.sampled_from(['aligned', 'aligned', 'misaligned']))
                 formulas.append({'fn': fn, 'pairs': pairs, 'target': target, 'misaligned': draw(st.integers(0, 7)) == 0 and not wide, 'wide': wide})
-        return {'columns': cols, 'formulas': formulas}
+        return {'columns': cols, 'formulas': formulas, 'crit_override': draw(st.integers(0, 2)) == 0}
     return spec()
 
 
